@@ -331,3 +331,10 @@ Definition step_laws (sm : sessmap) (x : state) (o : op) (x' : state) : Prop :=
   (forall v, swant (st x') v = swant s v \/ exists w', swant (st x') v = Some w' /\ want_just c s a o v w') /\
   (forall c', ca x' = Some c' -> forall v g', cgiven c' v = Some g' -> cgiven c v = Some g' \/ given_just c s a o v g') /\
   (forall c', ca x' = Some c' -> forall v w', cwant c' v = Some w' -> cwant c v = Some w' \/ want_just c s a o v w').
+
+(* A FAILING (not crashing) topics.owner write in an accepted ownership transfer: the third
+   store call of the request (after the two calls of a topic load, when the topic was not
+   loaded).  The trigger excluded by the partial writer theorems. *)
+Definition transfer_split (sm : sessmap) (f : fault) (x : state) (o : op) : Prop :=
+  own_request (actor sm o) o /\ pending_transferee (view x) (actor sm o) /\
+  f = FailAt (match ca x with Some _ => 3 | None => 5 end).
